@@ -112,3 +112,52 @@ def functions(pid, names, repo):
                 seen.add(loc)
                 out.append(loc)
     return out
+
+
+def dispatch_sites(repo):
+    """Hand-written dynamic-dispatch entry points: every definition of `fn go_emit` / `fn go_check` in the
+    library other than the generated forwarders of the `go_extra!` macro and the trait's declarations.
+    -> list of (file, line, enclosing impl header)"""
+    sites = []
+    src = os.path.join(repo, "src")
+    for fn in sorted(os.listdir(src)):
+        if not fn.endswith(".rs"):
+            continue
+        lines = open(os.path.join(src, fn), errors="replace").read().split("\n")
+        in_macro = False
+        for i, line in enumerate(lines):
+            if re.match(r"\s*macro_rules!\s+go_extra", line):
+                in_macro = True
+            elif in_macro and re.match(r"^}", line):
+                in_macro = False
+            m = re.match(r"\s*(pub\s+)?fn (go_emit|go_check)\s*(<[^>]*>)?\(", line)
+            if not m or in_macro or line.strip().startswith("//"):
+                continue
+            # a declaration without a body (the trait's) ends in `;`
+            j = i
+            decl = line
+            while "{" not in decl and ";" not in decl and j + 1 < len(lines):
+                j += 1
+                decl += lines[j]
+            if decl.strip().endswith(";") or (";" in decl and "{" not in decl):
+                continue
+            k = i
+            while k > 0 and not re.match(r"\s*(unsafe\s+)?impl\b", lines[k]):
+                k -= 1
+            header = lines[k].strip()
+            h = k
+            while "{" not in header and h + 1 < len(lines) and h < k + 12:
+                h += 1
+                header += " " + lines[h].strip()
+            sites.append((f"src/{fn}", i + 1, header))
+    return sites
+
+
+def harness_prefixes_for(file, header):
+    """harness-name prefixes whose code under contract is the impl with this header"""
+    out = []
+    for k, anchors in MAP.items():
+        for f, pat in anchors:
+            if f == file and re.search(pat, header):
+                out.append(k)
+    return out
